@@ -808,5 +808,39 @@ pub fn tcp_case_ext(u: &mut Unstructured, ext: bool) -> TcpCase {
     TcpCase { cookies, idle_ms, max_queued, cap, reconf_at_ms, hook, conns }
 }
 
+/// Sub-check `stream_txn`: transactions in every representation of the
+/// feedback (`Kind::Txn`) among single and plain multi-response plans,
+/// pipelined on connections with a short response queue (1, 2, 3, 10) and
+/// answers big enough to keep the writer busy on a narrow stream, so that
+/// transactions start, continue and end while the queue is full. All zero
+/// input: one connection, queue 1, one single answer.
+pub fn tcp_txn_case(u: &mut Unstructured) -> TcpCase {
+    let max_queued = [1usize, 1, 2, 3, 10][pick(u, 5)];
+    let cap = [65536usize, 4096, 64, 7][pick(u, 4)];
+    let nconn = 1 + pick(u, 2);
+    let mut next_id = 0x0101u16;
+    let mut conns = vec![];
+    for c in 0..nconn {
+        let n = 1 + pick(u, 6);
+        let mut items = vec![];
+        for _ in 0..n {
+            let gap_ms = [0u32, 0, 0, 1, 40][pick(u, 5)];
+            let req = sentinel(next_id, flag(u));
+            next_id += 1;
+            let mut shape = Shape::default();
+            shape.target = [None, None, Some(300usize), Some(5000), Some(20000)][pick(u, 5)];
+            let delay_ms = [0u32, 0, 40, 150][pick(u, 4)];
+            let kind = match pick(u, 8) {
+                0 | 1 => Kind::Single,
+                2 => Kind::Multi { n: 2 + pick(u, 3), gap_ms: 0, transaction: false },
+                _ => Kind::Txn { n: 1 + pick(u, 4), gap_ms: [0u32, 0, 1, 40][pick(u, 4)], begin_attached: pick(u, 3) != 0, end: pick(u, 3) as u8, noop_reconf: flag(u) },
+            };
+            items.push(TItem { gap_ms, splits: vec![], chunk_gap_ms: 0, what: TWhat::Wf { req, plan: Plan { delay_ms, kind, shape }, sentinel: false } });
+        }
+        conns.push(Conn { start_ms: 0, addr: SocketAddr::from(([198, 51, 100, 1 + c as u8], 20000 + c as u16)), accept: Accept::Ready, items });
+    }
+    TcpCase { cookies: false, idle_ms: 30_000, max_queued, cap, reconf_at_ms: None, hook: false, conns }
+}
+
 #[allow(unused)]
 fn _w(_: wire::Header) {}
